@@ -43,13 +43,15 @@ PROP = 'C10'
 
 TIERS = {
     'quick': dict(n=3, pipe_full=2, pipe_nested_full=2, pipe_allforms=1,
+                  pipe_full_positions=strlit.POSITIONS,
                   pipe_sample=100,
                   pipe_batch=40, sql_extra=14, sql_batch=50,
                   flag_cfgs=['FlagsQ1', 'FlagsQ2'], flag_model_only=[],
                   flag_sim=None, grow_sample=16, flag_pipe=80),
     'thorough': dict(n=4, pipe_full=3, pipe_nested_full=2, pipe_allforms=2,
-                     pipe_sample=2000,
-                     pipe_batch=40, sql_extra=380, sql_batch=50,
+                     pipe_full_positions=('fact', 'record', 'user'),
+                     pipe_sample=1200,
+                     pipe_batch=40, sql_extra=230, sql_batch=50,
                      flag_cfgs=['FlagsT1', 'FlagsT2'],
                      flag_model_only=['FlagsT3'],
                      flag_sim=('FlagsT3S', 'num=200'), grow_sample=200,
@@ -104,8 +106,10 @@ def _Selections(cfg):
 
 def _PipeTasks(cfg, full, sample):
   """All literal forms for the shortest strings; the primary form (and the
-  triple-quoted one for a fifth of the strings) for the rest.  The nested
-  context is exhaustive up to cfg['pipe_nested_full'] and sampled beyond."""
+  triple-quoted one for a fifth of the strings) for the rest.  Exhaustive up to
+  cfg['pipe_full'] at top level in cfg['pipe_full_positions']; the nested
+  context and the other positions are exhaustive up to
+  cfg['pipe_nested_full'] and sampled beyond."""
   tasks = []
   allf = [s for s in full if len(s) <= cfg['pipe_allforms']]
   tasks += strlit.PipeTasks(allf, cfg['pipe_batch'])
@@ -113,8 +117,10 @@ def _PipeTasks(cfg, full, sample):
   in_sample = set(sample)
 
   def Primary(s, pos, ctx):
-    if (ctx == 'nested' and len(s) > cfg['pipe_nested_full']
-        and s not in in_sample):
+    if s not in in_sample and (
+        (ctx == 'nested' and len(s) > cfg['pipe_nested_full']) or
+        (pos not in cfg['pipe_full_positions'] and
+         len(s) > cfg['pipe_nested_full'])):
       return []
     return ['argv', strlit.PrimaryForm(s)] + (
         ['tq'] if strlit.ShardOf(s, 5) == 0 else [])
@@ -223,6 +229,7 @@ def _ModelRuns(cfg, pool):
 # Development aid only (never a registered command): C10_SMOKE=1 shrinks the
 # run to seconds of work; the evidence file says so.
 SMOKE = dict(n=2, pipe_full=1, pipe_nested_full=1, pipe_allforms=1,
+             pipe_full_positions=strlit.POSITIONS,
              pipe_sample=40, pipe_batch=40, sql_extra=4, sql_batch=50,
              flag_cfgs=['FlagsQ2'], flag_model_only=[], flag_sim=None,
              grow_sample=4, flag_pipe=12)
